@@ -19,8 +19,13 @@ package app
 //@   aimcheck app.Context.deliver                // C07.aim
 //@   aimexempt transactions.TransactionStore     // the internal-transaction queue lives in its own State, never re-aimed by Action()
 
+// `mustcall`: every path of the hook that reaches its return has run each of the block-level duties below (checked in the
+// same mode; a duty that is skipped on some path — moved under a condition, dropped in a refactoring — silently stops
+// maturing undelegations, paying rewards, freezing validators, queueing internal transactions ...). Properties C10, C12,
+// C13, C14, C15 and C19 rest on these calls happening in every block.
 //@ func (*App).blockBeginner$1
 //@   aimcheck app.Context.deliver                // C07.aim
+//@   mustcall (*app.App).applyUpdate, (*fees.Store).SetupOpt, app.ManageVotes, (*identity.ValidatorStore).Setup, app.addMaturedAmountsToBalance, (*identity.ValidatorStore).CheckMaliciousValidators, app.handleBlockRewards, app.AddInternalTX     // C07.hooks-run
 //@   aimexempt transactions.TransactionStore     // the internal-transaction queue lives in its own State, never re-aimed by Action()
 
 //@ func (*App).txDeliverer$1
@@ -29,10 +34,12 @@ package app
 
 //@ func (*App).blockEnder$1
 //@   aimcheck app.Context.deliver                // C07.aim
+//@   mustcall (*identity.ValidatorStore).GetEndBlockUpdate, (*identity.ValidatorStore).ClearEvents, app.doTransitions, app.doEthTransitions, app.ExpireProposals, app.FinalizeProposals     // C07.hooks-run
 //@   aimexempt transactions.TransactionStore     // the internal-transaction queue lives in its own State, never re-aimed by Action()
 
 //@ func (*App).commitor$1
 //@   aimcheck app.Context.deliver                // C07.aim
+//@   mustcall (*storage.State).Commit            // C07.hooks-run
 
 // ---- their helpers in package app that receive the context (not a store): checked on their own, entry aims arbitrary
 
